@@ -111,6 +111,13 @@ class PandasIndexFeaturesMixin:
         for name in reindexed.names:
             fill_method = methods.get(name, method)
 
+            # With neither a fill method nor a fill value, there's nothing for
+            # `pandas` to add: keep the base class result, which already
+            # applies the dtype-specific defaults (NaN would otherwise be cast
+            # into integer, boolean and string variables)
+            if fill_method is None and fill_values.get(name, fill_value) is None:
+                continue
+
             fill_limit = None
             fill_tolerance = None
 
